@@ -75,7 +75,15 @@ int main() {
       std::string expr;
       // the input container lives in `inp` so that we can look at it afterwards
       auto L = [&](size_t i) { return veclit(w.at(i)); };
-      if (f == "ltrim" || f == "rtrim" || f == "trim") { is_str = true; chai.eval("var inp = " + strlit(w.at(1))); }
+      bool str_result = false;
+      if (f == "joins" || f == "to_strings") {
+        // a vector of strings: tokens separated by ',', E = the empty string
+        std::string lit = "[";
+        for (auto &tok : vh::fields(w.at(1), ',')) { if (lit.size() > 1) lit += ", "; lit += "\"" + (tok == "E" ? std::string() : tok) + "\""; }
+        chai.eval("var inp = " + lit + "]");
+        str_result = true;
+      }
+      else if (f == "ltrim" || f == "rtrim" || f == "trim") { is_str = true; chai.eval("var inp = " + strlit(w.at(1))); }
       else if (f == "zip_with") chai.eval("var inp = " + L(2));
       else if (f == "generate_range" || f == "min" || f == "max" || f == "odd" || f == "even") chai.eval("var inp = []");
       else chai.eval("var inp = " + L(1));
@@ -88,6 +96,8 @@ int main() {
       else if (f == "concat" || f == "zip") expr = f + "(inp, " + L(2) + ")";
       else if (f == "reduce") expr = "reduce(inp, " + CB.at(w.at(2)) + ")";
       else if (f == "join") expr = "join(inp, \", \")";
+      else if (f == "joins") expr = std::string("join(inp, \"") + (w.at(2) == "c" ? "," : w.at(2) == "cs" ? ", " : w.at(2) == "e" ? "" : "--") + "\")";
+      else if (f == "to_strings") expr = "to_string(inp)";
       else if (f == "generate_range") expr = "generate_range(" + w.at(1) + ", " + w.at(2) + ")";
       else if (f == "zip_with") expr = "zip_with(" + CB.at(w.at(1)) + ", inp, " + L(3) + ")";
       else if (f == "retro") { expr = "for_each(retro(range(inp)), fun(x){ log(x) })"; traced = true; }
@@ -104,11 +114,11 @@ int main() {
       std::string res;
       try {
         Boxed_Value r = chai.eval(expr);
-        res = is_str ? codes(boxed_cast<std::string>(r)) : show(r);
+        res = (is_str || str_result) ? codes(boxed_cast<std::string>(r)) : show(r);
         if (on_range) {
           g_log.push_back(-777);    // separator between the two uses in the trace
           Boxed_Value r2 = chai.eval(expr);
-          res += "|" + show(r2);
+          res += "|" + (str_result ? codes(boxed_cast<std::string>(r2)) : show(r2));
         }
       } catch (const chaiscript::exception::eval_error &e) { res = "error"; if (getenv("VERIF_DEBUG")) res += ":" + e.pretty_print();
       } catch (const std::exception &) { res = "error"; }
